@@ -139,13 +139,29 @@ func biased(r *rand.Rand) *big.Int {
 
 func shiftCount(r *rand.Rand) *big.Int {
 	small := []int64{0, 1, 7, 8, 9, 15, 16, 63, 64, 65, 127, 128, 200, 254, 255, 256, 257, 300, 511, 512}
-	switch r.Intn(6) {
+	edge := []int64{0, 1, 8, 248, 254, 255, 256, 257}
+	switch r.Intn(8) {
 	case 0:
 		return biased(r)
 	case 1:
 		return pow2([]uint{32, 63, 64, 128, 255}[r.Intn(5)])
+	case 2, 3, 4:
+		return big.NewInt(edge[r.Intn(len(edge))])
 	default:
 		return big.NewInt(small[r.Intn(len(small))])
+	}
+}
+
+// shiftValue: operands of shifts, byte extraction and sign extension: the top bit and the
+// lowest bit matter at the boundaries
+func shiftValue(r *rand.Rand) *big.Int {
+	switch r.Intn(4) {
+	case 0:
+		return wrap(new(big.Int).Or(biased(r), pow2(255)))
+	case 1:
+		return wrap(new(big.Int).Or(biased(r), one))
+	default:
+		return biased(r)
 	}
 }
 
@@ -190,11 +206,11 @@ func (g *gen) binop(o byte) {
 	var a, b *big.Int // a ends on top
 	switch o {
 	case eu.SHL, eu.SHR, eu.SAR:
-		a, b = shiftCount(r), biased(r)
+		a, b = shiftCount(r), shiftValue(r)
 	case eu.BYTE:
-		a, b = byteIndex(r), biased(r)
+		a, b = byteIndex(r), shiftValue(r)
 	case eu.SIGNEXTEND:
-		a, b = byteIndex(r), biased(r)
+		a, b = byteIndex(r), shiftValue(r)
 	case eu.EXP:
 		a = biased(r)
 		if *g.exp > 0 && r.Intn(3) == 0 {
@@ -327,7 +343,8 @@ func (g *gen) snippet() {
 			g.pushI(100000)
 			g.op(eu.CALL, 7, 1)
 			g.haveRD = n
-		} else if r.Intn(3) == 0 {
+		}
+		if r.Intn(3) == 0 {
 			g.op(eu.RETURNDATASIZE, 0, 1)
 		} else {
 			l := r.Intn(g.haveRD + 1)
